@@ -34,6 +34,10 @@ CONSTANTS
     IncomingKinds,  \* subset of {"both", "trace", "span"}: Frame::push of incoming trace id + span id,
                     \* of a trace id alone, of a span id alone ({}: none)
     WithLazy,       \* BOOLEAN: offer async-fn spans (begin happens at the first poll)
+    WithCancel,     \* BOOLEAN: offer dropping a suspended async span (cancellation)
+    CancelOwnIds,   \* BOOLEAN, level B only: TRUE = a span completing from its guard's Drop outside its
+                    \* frame uses the ids stored in the guard; FALSE = it uses whatever is ambient where
+                    \* it is dropped - the code as it is (open finding F29)
     CtxForms        \* the forms in which the runtime's context is used: "value" (C), "ref" (&C),
                     \* "option" (Option<C>), "box" (Box<C>), "arc" (Arc<C>), "dyn" (Box<dyn ErasedCtxt +
                     \* Send + Sync>, through dyn ErasedCtxt's dispatch table), "ambient" (the type-erased
@@ -70,7 +74,9 @@ VARIABLES
     sp,       \* span i: [st, en, ids (level B: what new_child computed), encl (level A)]
     fsp,      \* frame -> span whose guard travels with the frame (0: none)
     ctxof,    \* frame -> level-A logical span context: 0 | span | INC | INCT | INCS
-    lazy,     \* task -> TRUE when it is an async-fn span that has not been polled yet
+    lazy,     \* task -> "lazy": an async-fn span that has not been polled yet (nothing has begun);
+              \*         "polled": it has been polled (its span is started, it is suspended when idle);
+              \*         "plain": wrapped in in_future, not polled yet
     em        \* records emitted by the last step
 
 svars == <<cx, hist, sp, fsp, ctxof, lazy, em>>
@@ -94,6 +100,13 @@ A_Ids(s, x) == <<A_Trace(s, x), A_Id(x), A_Parent(s, x)>>
 SObs(c, s, co) == [t \in Threads |-> A_Ids(s, LogicalCtx(c, co, t))]
 
 -----------------------------------------------------------------------------
+\* the root of the tree a logical context belongs to
+RECURSIVE RootOf(_)
+RootOf(x) == IF x = 0 \/ IsInc(x) THEN x
+             ELSE IF sp[x].encl = 0 \/ sp[x].encl = INCS THEN x      \* nothing gives it a trace id: it starts one
+             ELSE RootOf(sp[x].encl)
+TraceOfRoot(x) == IF x = INC \/ x = INCT THEN IN_TR ELSE IF x = 0 \/ x = INCS THEN 0 ELSE sp[x].ids[1]
+
 SLog(rec) == hist' = Append(hist, rec @@ [emits |-> em', exp |-> SObs(cx', sp', ctxof')])
 
 FreeSpans == {i \in Spans : sp[i].st = "none"}
@@ -120,7 +133,7 @@ SInit ==
     /\ sp = [i \in Spans |-> NoSpan]
     /\ fsp = [f \in Frames |-> 0]
     /\ ctxof = [f \in Frames |-> 0]
-    /\ lazy = [k \in Tasks |-> FALSE]
+    /\ lazy = [k \in Tasks |-> "plain"]
     /\ em = <<>>
 
 \* #[emit::span] on a sync fn / block, new_span! + call, SpanGuard::new + enter: begin and enter
@@ -195,14 +208,14 @@ Lazy(t) ==
     /\ FreeTasks(cx) # {}
     /\ FreeSpans # {} /\ FreeFrames(cx) # {}
     /\ cx' = [cx EXCEPT !.tk[NextTask(cx)] = [st |-> "idle", f |-> 0]]
-    /\ lazy' = [lazy EXCEPT ![NextTask(cx)] = TRUE]
+    /\ lazy' = [lazy EXCEPT ![NextTask(cx)] = "lazy"]
     /\ em' = <<>>
     /\ UNCHANGED <<sp, fsp, ctxof>>
     /\ SLog([op |-> "lazy", t |-> t, k |-> NextTask(cx)])
 
 \* first poll of an async-fn span: begin the span where the poll happens, then enter
 PollLazy(t, k, v) ==
-    /\ cx.tk[k].st = "idle" /\ lazy[k]
+    /\ cx.tk[k].st = "idle" /\ lazy[k] = "lazy"
     /\ FreeSpans # {} /\ FreeFrames(cx) # {}
     /\ Len(cx.stk[t]) < MaxDepth
     /\ LET i == NextSpan
@@ -213,16 +226,17 @@ PollLazy(t, k, v) ==
           /\ cx' = CxEnter(c2, t, f, "poll", k)
           /\ fsp' = [fsp EXCEPT ![f] = i]
           /\ ctxof' = [ctxof EXCEPT ![f] = CtxOfSpan(t, i, v)]
-          /\ lazy' = [lazy EXCEPT ![k] = FALSE]
+          /\ lazy' = [lazy EXCEPT ![k] = "polled"]
           /\ em' = <<>>
           /\ SLog([op |-> "poll", t |-> t, k |-> k, i |-> i, f |-> f, v |-> v, first |-> TRUE])
 
 SPoll(t, k) ==
-    /\ cx.tk[k].st = "idle" /\ ~lazy[k]
+    /\ cx.tk[k].st = "idle" /\ lazy[k] # "lazy"
     /\ Len(cx.stk[t]) < MaxDepth
     /\ cx' = [CxEnter(cx, t, cx.tk[k].f, "poll", k) EXCEPT !.tk[k].st = "run"]
     /\ em' = <<>>
-    /\ UNCHANGED <<sp, fsp, ctxof, lazy>>
+    /\ lazy' = [lazy EXCEPT ![k] = "polled"]
+    /\ UNCHANGED <<sp, fsp, ctxof>>
     /\ SLog([op |-> "poll", t |-> t, k |-> k, first |-> FALSE])
 
 SYield(t) ==
@@ -268,6 +282,38 @@ SPanic(t) ==
     /\ sp' = [i \in Spans |-> IF i \in SpansOnStack(t) THEN [sp[i] EXCEPT !.st = "done"] ELSE sp[i]]
     /\ UNCHANGED <<fsp, ctxof, lazy>>
     /\ SLog([op |-> "panic", t |-> t])
+
+\* Cancellation: the future of a started async span (polled at least once, now suspended) is
+\* dropped by code running on thread t - in the frame of the span it was nested in, somewhere
+\* else in the same trace tree, or where no span is ambient.  (A span cancelled from inside an
+\* unrelated trace is two unrelated trees, not "a tree of nested spans": left out.)  Its guard
+\* completes from Drop, OUTSIDE its frame.
+\* Level A, the statement: the span's event carries the span's own id, parent = the span it was
+\* directly nested in, the tree's trace id - the ids fixed when it began.
+\* Level B, the code: completion re-reads the ambient context, so the event carries the ids of
+\* whoever dropped it (CancelOwnIds = FALSE; finding F29).
+Where(t, i) == LET L == LogicalCtx(cx, ctxof, t) IN
+               IF L = 0 THEN "where no span is ambient"
+               ELSE IF L = sp[i].encl THEN "in its parent's frame" ELSE "elsewhere in its trace tree"
+
+Cancel(t, k) ==
+    /\ WithCancel
+    /\ cx.tk[k].st = "idle" /\ lazy[k] = "polled"
+    /\ fsp[cx.tk[k].f] # 0
+    /\ LET f == cx.tk[k].f
+           i == fsp[f]
+           L == LogicalCtx(cx, ctxof, t)
+       IN /\ L = 0 \/ RootOf(L) = RootOf(i)
+          /\ em' = IF sp[i].en
+                   THEN <<[kind |-> "span", ids |-> IF CancelOwnIds THEN sp[i].ids ELSE cx.act[t][1],
+                           a |-> i, i |-> i, cancel |-> TRUE]>>
+                   ELSE <<>>
+          /\ sp' = [sp EXCEPT ![i].st = "done"]
+          /\ cx' = [cx EXCEPT !.fr[f] = NoFrame("dead"), !.tk[k] = NoTask("done")]
+          /\ UNCHANGED <<fsp, ctxof, lazy>>
+          /\ SLog([op |-> "cancel", t |-> t, k |-> k, i |-> i, f |-> f, where |-> Where(t, i),
+                   emits |-> IF sp[i].en
+                             THEN <<[kind |-> "span", ids |-> A_Ids(sp, i), cancel |-> TRUE]>> ELSE <<>>])
 
 \* emit!(...) on thread t
 Event(t) ==
@@ -315,6 +361,7 @@ SNext ==
     \/ \E t \in Threads : SComplete(t)
     \/ \E t \in Threads : Event(t)
     \/ \E t \in Threads : SPanic(t)
+    \/ \E t \in Threads, k \in Tasks : Cancel(t, k)
     \/ \E t \in Threads, kind \in IncomingKinds : Incoming(t, kind)
     \/ \E t \in Threads : Current(t)
 
@@ -329,17 +376,16 @@ Started == {i \in Spans : sp[i].st # "none"}
 FrameIds == \A f \in LiveFrames : cx.fr[f].logical = A_Ids(sp, ctxof[f])
 AmbientIds == \A t \in Threads : cx.act[t][1] = A_Ids(sp, LogicalCtx(cx, ctxof, t))
 
-\* the root of the tree a logical context belongs to
-RECURSIVE RootOf(_)
-RootOf(x) == IF x = 0 \/ IsInc(x) THEN x
-             ELSE IF sp[x].encl = 0 \/ sp[x].encl = INCS THEN x      \* nothing gives it a trace id: it starts one
-             ELSE RootOf(sp[x].encl)
-TraceOfRoot(x) == IF x = INC \/ x = INCT THEN IN_TR ELSE IF x = 0 \/ x = INCS THEN 0 ELSE sp[x].ids[1]
-
 \* every record emitted inside a tree carries the trace id of the tree's outermost span
 \* (or the incoming trace id)
+\* records of a cancelled span are judged only in the model of the repaired design; in the model
+\* of the code as it is they are the open finding F29 (CancelCarriesOwnIds states it)
+IsCancel(n) == "cancel" \in DOMAIN em[n]
+Judged(n) == CancelOwnIds \/ ~IsCancel(n)
+CancelCarriesOwnIds == \A n \in 1..Len(em) : IsCancel(n) => em[n].ids = sp[em[n].i].ids
+
 OneTrace ==
-    \A n \in 1..Len(em) : em[n].a # 0 => em[n].ids[1] = TraceOfRoot(RootOf(em[n].a))
+    \A n \in 1..Len(em) : (Judged(n) /\ em[n].a # 0) => em[n].ids[1] = TraceOfRoot(RootOf(em[n].a))
 
 \* a span's parent is the id of the nearest enabled ancestor (or the incoming span id, or none),
 \* on the span itself and on the record it emits
@@ -349,7 +395,7 @@ ParentIsEnclosing ==
     /\ \A i \in Started : sp[i].ids[1] = (IF sp[i].encl = 0 \/ sp[i].encl = INCS THEN DrawTrace(i)
                                           ELSE TraceOfRoot(RootOf(sp[i].encl)))
     /\ \A i \in Started : sp[i].encl \in Spans => sp[sp[i].encl].en
-    /\ \A n \in 1..Len(em) : em[n].kind = "span" => em[n].ids = sp[em[n].i].ids
+    /\ \A n \in 1..Len(em) : (Judged(n) /\ em[n].kind = "span") => em[n].ids = sp[em[n].i].ids
 
 \* events carry the ids of the innermost enclosing enabled span (nothing outside any span)
 EventCarriesInnermost ==
